@@ -229,6 +229,18 @@ claim("C19",
       "radicals are outside the normal form).",
       "canonical term algebra (inverse and sibling identities) + loop-polarity rule + ast pattern rules", "§3 C19")
 
+claim("C07",
+      "Narrow, wiring clauses + frozen coefficients: the default propagator initialises the reference sgp4 library "
+      "with (line1, line2, wgs72) of the TLE regenerated from the orbit, hands it the UTC calendar fields, scales all "
+      "six components km->m and returns a cartesian state at the requested date; the native model is bound to WGS-72 "
+      "whose constants equal the published set by value (k_e as formula or number), converts rev/day->rad/min, "
+      "minutes and Earth radii consistently, solves Kepler's equation with a Newton step verified symbolically and the "
+      "right exit polarity, measures elapsed time on instants; the numeric literals of its initialisation and of its "
+      "secular/periodic terms equal the committed reference multiset.",
+      "Not decided: that every coefficient expression of the native model is the published one (only their literals are "
+      "frozen), deep-space behaviour, 1 cm / |v| x 50 us agreement as numbers.",
+      "ast wiring rules + published-constant comparison + frozen-constant multisets + term algebra on the Kepler step", "§3 C07")
+
 NOT_YET = "check not built yet in this revision; rules designed in DESIGN.md §3 — claimed once its checker is committed"
 
 ALL = [f"C{i:02d}" for i in range(1, 21)]
